@@ -6,7 +6,12 @@ import (
 	"bufio"
 	"encoding/hex"
 	"fmt"
+	"go/ast"
+	"go/parser"
+	"go/token"
 	"os"
+	"path/filepath"
+	"sort"
 	"strconv"
 	"strings"
 )
@@ -121,4 +126,81 @@ func Catch(f func()) (panicked bool, val interface{}) {
 	}()
 	f()
 	return false, nil
+}
+
+// SourceLiterals returns the integer constants that occur in the non-test, non-generated Go sources of the given
+// directories (relative to the tree under test: $VERIF_REPO, default /repo; not recursive), sorted, without
+// duplicates, restricted to lo..hi: integer literals and constant expressions built from them with << * + -
+// (64*1024, 1<<16, 4096-1). A generator uses them as lengths and repetition counts of its own: a buffer size, a
+// chunk size or a retry budget of the implementation is a boundary of the implementation although no format knows it.
+func SourceLiterals(lo, hi int64, dirs ...string) []int {
+	root := os.Getenv("VERIF_REPO")
+	if root == "" {
+		root = "/repo"
+	}
+	seen := map[int64]bool{}
+	var eval func(e ast.Expr) (int64, bool)
+	eval = func(e ast.Expr) (int64, bool) {
+		switch x := e.(type) {
+		case *ast.BasicLit:
+			if x.Kind != token.INT {
+				return 0, false
+			}
+			v, err := strconv.ParseInt(strings.ReplaceAll(x.Value, "_", ""), 0, 64)
+			return v, err == nil
+		case *ast.ParenExpr:
+			return eval(x.X)
+		case *ast.BinaryExpr:
+			a, ok1 := eval(x.X)
+			b, ok2 := eval(x.Y)
+			if !ok1 || !ok2 {
+				return 0, false
+			}
+			switch x.Op {
+			case token.SHL:
+				if b < 0 || b > 40 {
+					return 0, false
+				}
+				return a << uint(b), true
+			case token.MUL:
+				return a * b, true
+			case token.ADD:
+				return a + b, true
+			case token.SUB:
+				return a - b, true
+			}
+		}
+		return 0, false
+	}
+	for _, d := range dirs {
+		ents, err := os.ReadDir(filepath.Join(root, d))
+		if err != nil {
+			continue
+		}
+		for _, en := range ents {
+			n := en.Name()
+			if en.IsDir() || !strings.HasSuffix(n, ".go") || strings.HasSuffix(n, "_test.go") || strings.HasSuffix(n, "_gen.go") ||
+				strings.HasPrefix(n, "verif_") {
+				continue
+			}
+			f, err := parser.ParseFile(token.NewFileSet(), filepath.Join(root, d, n), nil, 0)
+			if err != nil {
+				continue
+			}
+			ast.Inspect(f, func(nd ast.Node) bool {
+				if e, ok := nd.(ast.Expr); ok {
+					if v, ok := eval(e); ok && v >= lo && v <= hi {
+						seen[v] = true
+					}
+				}
+				return true
+			})
+		}
+	}
+	var out []int
+	for v := range seen {
+		out = append(out, int(v))
+	}
+	sort.Ints(out)
+	return out
 }
